@@ -148,7 +148,7 @@ fn case_strategy() -> impl Strategy<Value = TrainCase> {
 pub fn run(rep: &mut Report) {
     liblinear::toggle_liblinear_stdout_output(false);
     let _guard = util::redirect_output("/verif/target/C11-train-output.log");
-    let n = rep.n(3000, 80000);
+    let n = rep.n(20000, 200000);
     rep.run_prop(
         "train-total",
         "window and n-gram sizes from {0,1,2,3,4,7} (incl. n > window and differing windows), \
